@@ -103,6 +103,13 @@ func TxSizeForFee(tx Transaction) (int, error) {
 				return fullSize, nil
 			}
 		}
+		// The header-only decode does not handle an indefinite-length
+		// envelope: count its components by decoding them
+		var components []cbor.RawMessage
+		if _, err := cbor.Decode(cborData, &components); err == nil &&
+			len(components) == 4 {
+			return fullSize - 1, nil
+		}
 		return fullSize, nil
 	}
 	return fullSize, nil
